@@ -95,6 +95,29 @@ Definition pick (env : list ptr) (k : Z) : M ptr :=
   if (k <? 0)%Z then fault
   else match nth_error env (Z.to_nat k) with Some p => ret p | None => fault end.
 
+(* Straight-line statements in SOURCE ORDER.  A statement takes the values of the local variables
+   (the environment of [pick]), acts on the heap and hands the environment, possibly updated, to
+   the rest of the function.  The translator gives the position of every assignment statement in
+   the Go source; [in_order] runs the statements by increasing position (statements with equal
+   positions -- the parts of one multiple assignment -- in the order listed).  So a reordered
+   source gives a reordered model. *)
+Definition stmt (A : Type) := list ptr -> (list ptr -> M A) -> M A.
+
+Fixpoint insert_stmt {A} (x : Z * stmt A) (l : list (Z * stmt A)) : list (Z * stmt A) :=
+  match l with
+  | [] => [x]
+  | y :: t => if (fst y <=? fst x)%Z then y :: insert_stmt x t else x :: l
+  end.
+Definition sort_stmts {A} (l : list (Z * stmt A)) : list (Z * stmt A) :=
+  fold_left (fun acc x => insert_stmt x acc) l [].
+Fixpoint seq_stmts {A} (l : list (Z * stmt A)) (env : list ptr) (k : list ptr -> M A) : M A :=
+  match l with
+  | [] => k env
+  | x :: t => snd x env (fun env' => seq_stmts t env' k)
+  end.
+Definition in_order {A} (l : list (Z * stmt A)) (env : list ptr) (k : list ptr -> M A) : M A :=
+  seq_stmts (sort_stmts l) env k.
+
 Definition ptr_eqb (p q : ptr) : bool :=
   match p, q with
   | None, None => true
@@ -143,6 +166,7 @@ Arguments val {T}. Arguments prev {T}. Arguments next {T}. Arguments mkCell {T}.
 Arguments size {T}. Arguments empty_heap {T}. Arguments lookup {T}. Arguments upd {T}.
 Arguments ret {T A}. Arguments bind {T A B}. Arguments out_of_fuel {T A}. Arguments fault {T A}.
 Arguments heap_size {T}. Arguments pick {T}.
+Arguments insert_stmt {T A}. Arguments sort_stmts {T A}. Arguments seq_stmts {T A}. Arguments in_order {T A}.
 Arguments load {T}. Arguments store {T}.
 Arguments get_next {T}. Arguments get_prev {T}. Arguments get_val {T}.
 Arguments set_next {T}. Arguments set_prev {T}. Arguments set_val {T}.
